@@ -88,6 +88,29 @@ def run_rewrite(case):
         if s_now != keep_snap:
             raise Violation(f"{rw} on one object changed an earlier copy of it ({snapshot_diff(keep_snap, s_now)})",
                             key=f"shared-structure:{rw}")
+    # parameters: the original (and every unfrozen descendant) stays live, frozen copies keep their values
+    if params:
+        frozen = "freeze" in case["seq"]
+        fsnap = snapshot(cur)
+        new_vals = [0.123 if k == "unit" else 2.5 for k in case["kinds"]]
+        for p, v in zip(params, new_vals):
+            p.set(v)
+        ref = build_real(prog, new_vals)
+        n_ = c.n_modes
+        for name, obj in (("original", c if "copy" in case["seq"] or frozen else None), ("earlier copy", keep),
+                          ("rewritten object", None if frozen else cur)):
+            if obj is None:
+                continue
+            Uo = call(f"U of {name}", lambda o=obj: o.U)
+            if Uo.shape != ref.U.shape or not np.abs(Uo - ref.U).max(initial=0.0) <= TOL:
+                raise Violation(f"after {case['seq']} the {name} no longer follows its Parameter objects",
+                                key="parameters-detached")
+        if frozen:
+            if snapshot(cur) != fsnap:
+                raise Violation("a frozen copy changed when the original's parameters were updated",
+                                key="frozen-follows-params")
+            labels.add("frozen-after-update-checked")
+        labels.add("live-after-update-checked")
     # independence: edit the rewritten object, the kept copy must not move, and vice versa
     n_user = cur.n_modes - len(cur._internal_modes)
     if n_user >= 1:
@@ -101,15 +124,6 @@ def run_rewrite(case):
             call("edit rewritten", cur.mode_swaps, {0: n_user - 1, n_user - 1: 0})
         if snapshot(keep) != keep_snap2:
             raise Violation("editing the rewritten object changed the original", key="shared-structure:edit")
-    # frozen copies ignore later parameter updates, unfrozen ones follow them
-    if params and "freeze" in case["seq"] and case["seq"][-1] == "freeze":
-        fsnap = snapshot(cur)
-        for p, k in zip(params, case["kinds"]):
-            p.set(0.123 if k == "unit" else 2.5)
-        if snapshot(cur) != fsnap:
-            raise Violation("a frozen copy changed when the original's parameters were updated",
-                            key="frozen-follows-params")
-        labels.add("frozen-after-update-checked")
     s = gen.program_stats(prog)
     swaps_sep = False
     kinds_seq = [op[0] for op in prog["ops"]]
